@@ -1,5 +1,5 @@
 #!/bin/bash
-# usage: tools/rerun_seeded.sh [parallelism]  - re-runs the quick tiers against every kept seeded change and refreshes meta.json
+# usage: tools/rerun_seeded.sh [parallelism] [name-glob]  - re-runs the quick tiers against every kept seeded change and refreshes meta.json
 set -u
 cd "$(dirname "$0")/.."
 PAR="${1:-6}"
@@ -32,4 +32,4 @@ PY
   git -C /repo worktree prune
 }
 export -f one
-ls -d seeded/*/ | sed 's#/$##' | xargs -P "$PAR" -I{} bash -c 'one {}'
+ls -d seeded/${2:-*}/ | sed 's#/$##' | xargs -P "$PAR" -I{} bash -c 'one {}'
